@@ -175,6 +175,7 @@ def units(tier):
         Unit("random-binary", check, strategy=lambda: cases(12, ["bin"]), examples=(400, 12000), shards=(4, 16)),
         Unit("random-lengths", check, strategy=lambda: cases(9, ["len"]), examples=(1000, 32000), shards=(8, 16)),
         Unit("random-lengths-large", check, strategy=lambda: cases(14, ["len"]), examples=(200, 8000), shards=(4, 16)),
+        Unit("random-n<=28", check, strategy=lambda: cases(28, ["bin", "len"]), examples=(48, 800), shards=(12, 16)),
     ]
     if tier == "thorough":
         us.append(Unit("sampled-digraphs-n5", check, count=_d5_count, cases=_d5_cases, shards=(16, 64),
